@@ -87,6 +87,12 @@ func (x *Xlat) havocRegion(st *State, key string) {
 			return
 		}
 	}
+	if strings.HasPrefix(key, "G$") {
+		wk := "GW$" + key[2:]
+		if cur, ok := st.env[wk]; !ok || !cur.IsTrue() {
+			st.env[wk] = x.ctx.Fresh(wk, SBool)
+		}
+	}
 	v := x.ctx.Fresh(key, s)
 	if ax := regionAxiom(key, v); ax != nil {
 		x.ctx.constAxioms[v.Op] = append(x.ctx.constAxioms[v.Op], ax)
@@ -122,6 +128,7 @@ func (x *Xlat) evalCall(st *State, fr *Frame, out *Outcomes, ce *ast.CallExpr) [
 	}
 	var recv ast.Expr
 	var callee *types.Func
+	var embeddedPath []int
 	switch f := fun.(type) {
 	case *ast.Ident:
 		switch o := info.Uses[f].(type) {
@@ -129,7 +136,7 @@ func (x *Xlat) evalCall(st *State, fr *Frame, out *Outcomes, ce *ast.CallExpr) [
 			callee = o
 		case *types.Var:
 			if c, ok := fr.lookupClosure(o); ok {
-				return x.inlineClosure(st, fr, out, c, x.evalArgsSig(st, fr, out, ce.Args, info.TypeOf(c.lit).(*types.Signature)), ce.Pos())
+				return x.inlineClosure(st, fr, out, c, x.evalArgsSig(st, fr, out, ce.Args, c.pkg.TypesInfo.TypeOf(c.lit).(*types.Signature)), ce.Pos())
 			}
 			return x.callUnknownFuncValue(st, fr, out, ce, o.Name())
 		}
@@ -139,6 +146,9 @@ func (x *Xlat) evalCall(st *State, fr *Frame, out *Outcomes, ce *ast.CallExpr) [
 			case types.MethodVal:
 				callee = sel.Obj().(*types.Func)
 				recv = f.X
+				if idx := sel.Index(); len(idx) > 1 {
+					embeddedPath = idx[:len(idx)-1]
+				}
 			case types.FieldVal:
 				return x.callUnknownFuncValue(st, fr, out, ce, x.src(f))
 			}
@@ -174,7 +184,38 @@ func (x *Xlat) evalCall(st *State, fr *Frame, out *Outcomes, ce *ast.CallExpr) [
 		}
 	}
 	if fi, ok := x.prog.ByObj[callee]; ok {
-		args := x.evalArgs(st, fr, out, recv, ce.Args, sig, info)
+		var args []Arg
+		if len(embeddedPath) > 0 {
+			// promoted method: the receiver is reached through embedded fields
+			pl := x.selectPath(st, fr, out, recv, embeddedPath, ce.Pos())
+			rt := sig.Recv().Type()
+			_, recvIsPtr := types.Unalias(rt).Underlying().(*types.Pointer)
+			var ft types.Type
+			switch q := pl.(type) {
+			case PHeap:
+				ft = q.typ
+			case PField:
+				ft = q.f.Type()
+			}
+			_, fieldIsPtr := types.Unalias(ft).Underlying().(*types.Pointer)
+			switch {
+			case recvIsPtr && fieldIsPtr:
+				v := x.load(st, pl)
+				args = append(args, Arg{v: v})
+			case recvIsPtr && !fieldIsPtr:
+				args = append(args, Arg{place: pl})
+			case !recvIsPtr && fieldIsPtr:
+				v := x.load(st, pl)
+				pt := types.Unalias(ft).Underlying().(*types.Pointer)
+				x.safety(st, out, "nil", Not(Eq(v, TNull)), ce.Pos(), "nil dereference for promoted value receiver")
+				args = append(args, Arg{v: x.load(st, PHeap{v, pt.Elem(), nil, pt.Elem()})})
+			default:
+				args = append(args, Arg{v: x.load(st, pl)})
+			}
+			args = append(args, x.evalArgsSig(st, fr, out, ce.Args, sig)...)
+		} else {
+			args = x.evalArgs(st, fr, out, recv, ce.Args, sig, info)
+		}
 		return x.callModule(st, fr, out, fi, args, ce.Pos())
 	}
 	return x.stdlib(st, fr, out, ce, recv, full, sig)
@@ -217,14 +258,24 @@ func (x *Xlat) evalArgs(st *State, fr *Frame, out *Outcomes, recv ast.Expr, argE
 		} else if _, isPtr := types.Unalias(rt).Underlying().(*types.Pointer); isPtr {
 			// pointer-to-struct receiver
 			if _, argIsPtr := types.Unalias(info.TypeOf(recv)).Underlying().(*types.Pointer); argIsPtr {
-				args = append(args, Arg{v: x.eval(st, fr, out, recv), expr: recv})
+				if id, ok := ast.Unparen(recv).(*ast.Ident); ok {
+					if v, ok := info.ObjectOf(id).(*types.Var); ok {
+						if p, ok := fr.lookupRefParam(v); ok {
+							args = append(args, Arg{place: p, expr: recv})
+						}
+					}
+				}
+				if len(args) == 0 {
+					args = append(args, Arg{v: x.eval(st, fr, out, recv), expr: recv})
+				}
 			} else {
 				// auto address of an addressable struct: heap resident?
 				pl := x.place(st, fr, out, recv)
 				if ph, ok := pl.(PHeap); ok && len(ph.names) == 0 {
 					args = append(args, Arg{v: ph.ref, expr: recv})
 				} else {
-					x.unsupp(recv.Pos(), "address of non-heap struct %s taken for method call", x.src(recv))
+					// local struct value or struct embedded in a heap object: pass by reference (place)
+					args = append(args, Arg{place: pl, expr: recv})
 				}
 			}
 		} else {
@@ -291,6 +342,13 @@ func (x *Xlat) evalArgsSig(st *State, fr *Frame, out *Outcomes, argExprs []ast.E
 				continue
 			}
 			x.unsupp(a.Pos(), "pointer argument %s is not of the form &lvalue", x.src(a))
+		}
+		if ue, ok := ast.Unparen(a).(*ast.UnaryExpr); ok && ue.Op == token.AND {
+			if _, isLit := ast.Unparen(ue.X).(*ast.CompositeLit); !isLit {
+				// &x of an addressable struct: by reference
+				args = append(args, Arg{place: x.place(st, fr, out, ue.X), expr: a})
+				continue
+			}
 		}
 		v := x.eval(st, fr, out, a)
 		if pt != nil {
@@ -590,10 +648,33 @@ func (x *Xlat) callModule(st *State, fr *Frame, out *Outcomes, fi *FuncInfo, arg
 		return x.callContract(st, fr, out, fi, args, pos)
 	}
 	if !x.inCallChain(fr, fi) && fr.depth < maxInlineDepth {
-		x.inlined[fi.Key] = true
-		return x.inlineFunc(st, fr, out, fi, args, pos)
+		snap := st.clone()
+		nobl := len(x.obls)
+		savedPan := out.pan
+		rs, ok := x.tryInline(st, fr, out, fi, args, pos)
+		if ok {
+			x.inlined[fi.Key] = true
+			return rs
+		}
+		*st = *snap
+		x.obls = x.obls[:nobl]
+		out.pan = savedPan
 	}
 	return x.callHavoc(st, fr, out, fi, args, pos)
+}
+
+func (x *Xlat) tryInline(st *State, fr *Frame, out *Outcomes, fi *FuncInfo, args []Arg, pos token.Pos) (rs []*Term, ok bool) {
+	defer func() {
+		if r := recover(); r != nil {
+			if u, isU := r.(unsupported); isU {
+				x.note("callee %s not inlined (%s): approximated by havoc of its write effects", fi.Key, u.msg)
+				ok = false
+				return
+			}
+			panic(r)
+		}
+	}()
+	return x.inlineFunc(st, fr, out, fi, args, pos), true
 }
 
 func (x *Xlat) paramVars(fi *FuncInfo) []*types.Var {
@@ -758,7 +839,7 @@ func (x *Xlat) callHavoc(st *State, fr *Frame, out *Outcomes, fi *FuncInfo, args
 	}
 	ps := x.paramVars(fi)
 	for i := range ps {
-		if i < len(args) && args[i].place != nil && ef.refWrites[i] {
+		if i < len(args) && args[i].place != nil && (ef.refWrites[i] || !isRefParamType(ps[i].Type())) {
 			x.havocPlace(st, out, args[i].place, pos)
 		}
 		if i < len(args) && args[i].clo != nil {
@@ -864,9 +945,25 @@ func (x *Xlat) callContract(st *State, fr *Frame, out *Outcomes, fi *FuncInfo, a
 	} else {
 		regions = sortedKeys(x.eff.Of(fi).regions)
 	}
+	gwBefore := map[string]*Term{}
 	for _, k := range regions {
 		x.havocRegion(st, k)
+		if strings.HasPrefix(k, "G$") {
+			// ghost written-flag: callee-relative while its postconditions are assumed
+			wk := "GW$" + k[2:]
+			if v, ok := st.env[wk]; ok {
+				gwBefore[wk] = v
+			} else {
+				gwBefore[wk] = TFalse
+			}
+			st.env[wk] = x.ctx.Fresh(wk, SBool)
+		}
 	}
+	defer func() {
+		for wk, before := range gwBefore {
+			st.env[wk] = Or(before, st.env[wk])
+		}
+	}()
 	ef := x.eff.Of(fi)
 	for i := range ps {
 		if i < len(args) && args[i].place != nil && (ef.refWrites[i] || spec.Trusted != "") {
@@ -919,6 +1016,12 @@ func (x *Xlat) callUnknownFuncValue(st *State, fr *Frame, out *Outcomes, ce *ast
 	for _, a := range ce.Args {
 		if _, ok := a.(*ast.FuncLit); ok {
 			continue
+		}
+		if ue, ok := ast.Unparen(a).(*ast.UnaryExpr); ok && ue.Op == token.AND {
+			if _, isLit := ast.Unparen(ue.X).(*ast.CompositeLit); !isLit {
+				x.havocPlace(st, out, x.place(st, fr, out, ue.X), a.Pos())
+				continue
+			}
 		}
 		x.eval(st, fr, out, a)
 	}
